@@ -1047,7 +1047,9 @@ class RewriteContext:
                 if force_ref is not None:
                     new.props.update(force_ref=force_ref)
                 ref_name = original.props.get("reference_name")
-                if isinstance(ref_name, str):
+                if isinstance(ref_name, str) and new.kind != "symbol":
+                    # a symbol keeps its name: function signatures
+                    # are printed with it
                     new.props.update(reference_name=ref_name)
             return new
         else:
